@@ -715,6 +715,60 @@ func reflectStubs() map[string]StubFn {
 	both("Call", func(c *CallCtx) { callModel(c, false) })
 	both("CallSlice", func(c *CallCtx) { callModel(c, true) })
 
+	// reflect.Append / xreflect.Append(s, x...): append of individually wrapped elements
+	appendModel := func(xw bool) StubFn {
+		return func(c *CallCtx) {
+			s := unwrapRV(c.args[0])
+			us, ok := typeUnder(s.T).(*types.Slice)
+			if !ok {
+				c.reflectPanic("call of reflect.Append on " + reflectKind(s.T).String() + " Value")
+				return
+			}
+			var add []Value
+			if !isNilValue(c.args[1]) {
+				xs := c.args[1].(SliceV)
+				n := c.ex.concreteInt(xs.Len, "reflect.Append: number of elements")
+				for i := 0; i < n; i++ {
+					e := unwrapRV(c.st.heap[xs.Obj].(*ArrV).Elems[xs.Off+i])
+					if e.T == nil || !types.AssignableTo(e.T, us.Elem()) {
+						c.reflectPanic("reflect.Append: value of type " + typeName(e.T) + " is not assignable to type " + typeName(us.Elem()))
+						return
+					}
+					v := c.ex.rvGet(c.st, e)
+					if _, isI := us.Elem().Underlying().(*types.Interface); isI {
+						if _, srcI := e.T.Underlying().(*types.Interface); !srcI {
+							v = Iface{T: e.T, V: v}
+						}
+					}
+					add = append(add, v)
+				}
+			}
+			sv := c.ex.rvGet(c.st, s).(SliceV)
+			c.Return(wrapRV(xw, RValue{T: s.T, Imm: c.ex.appendVals(c.st, sv, add, us.Elem())}))
+		}
+	}
+	m["reflect.Append"] = appendModel(false)
+	m["github.com/cosmos72/gomacro/xreflect.Append"] = appendModel(true)
+	m["(*github.com/cosmos72/gomacro/xreflect.Universe).FuncOf"] = func(c *CallCtx) {
+		tuple := func(v Value) *types.Tuple {
+			if isNilValue(v) {
+				return nil
+			}
+			s := v.(SliceV)
+			n := c.ex.concreteInt(s.Len, "Universe.FuncOf: number of types")
+			var vars []*types.Var
+			for i := 0; i < n; i++ {
+				vars = append(vars, types.NewVar(0, nil, "", c.st.heap[s.Obj].(*ArrV).Elems[s.Off+i].(XType).T))
+			}
+			return types.NewTuple(vars...)
+		}
+		variadic := c.args[3].(*Term)
+		if !variadic.Const {
+			unsupported("Universe.FuncOf with symbolic variadic flag")
+		}
+		c.Return(XType{T: types.NewSignatureType(nil, nil, nil, tuple(c.args[1]), tuple(c.args[2]), variadic.U == 1)})
+	}
+
 	// ---- package-level helpers used by reflection-based container code ----
 	m["reflect.Indirect"] = func(c *CallCtx) {
 		r := unwrapRV(c.args[0])
